@@ -21,6 +21,8 @@
 (* evaluation that performs it (SeesOwn - "the call equals its body written       *)
 (* inline ... also when several workers evaluate concurrently"), no object is     *)
 (* held twice or pooled while held (Exclusive), nothing leaks (NoLeak).           *)
+(* The end of a call is an ORDER of steps: Get / bind caller / evaluate / [clear] / *)
+(* Return; Clear = "after" (Return, then clear) is a use-after-return.            *)
 (* Negative controls: Locked = FALSE (Get without the mutex), EarlyReturn = TRUE  *)
 (* (the object goes back to the pool before the body ran), InitSub = FALSE (the   *)
 (* object keeps the context of an earlier call) - TLC must reject each.           *)
@@ -31,7 +33,11 @@ CONSTANTS W, J, P,        \* goroutines, evaluations per goroutine, initial pool
           Body,           \* Body[s]: code of the called function's body
           Args,           \* Args[s]: sequence of codes, one per call argument
           Main,           \* code of the expression
-          Locked, EarlyReturn, InitSub
+          Locked, EarlyReturn, InitSub,
+          Clear           \* what the stage does with the object's reference to the caller's context when it is done:
+                          \* "none" (the code: the reference stays until the next Get overwrites it), "before" (dropped,
+                          \* THEN handed back - equivalent), "after" (handed back, THEN dropped: two deferred calls run in
+                          \* reverse source order - the object is already someone else's when the write lands; refuted)
 
 \* code: sequence of ops  <<"grp", i>> | <<"key">> | <<"call", s>>
 VARIABLES pool,     \* pool[s]: free list of site s (Get takes the last)
@@ -140,16 +146,29 @@ InitCall(w) ==
      /\ Set(w, [ev[w] EXCEPT !.stack = Append(@, Rec(Body[s], <<"o", s, o>>, "body", s, o)), !.pc = "run"])
   /\ UNCHANGED <<created, mutex, err>>
 
-\* deferred ctxPool.Return(subCtx)
+\* deferred ctxPool.Return(subCtx); with Clear = "before" the step before it drops the caller reference
+ClearFirst(w) ==
+  /\ ev[w].pc = "ret" /\ Clear = "before"
+  /\ sub' = [sub EXCEPT ![ev[w].site][ev[w].obj] = Nil]
+  /\ Set(w, [ev[w] EXCEPT !.pc = "ret2"])
+  /\ UNCHANGED <<pool, created, mutex, err>>
 Ret(w) ==
-  /\ ev[w].pc = "ret"
+  /\ ev[w].pc = (IF Clear = "before" THEN "ret2" ELSE "ret")
   /\ LET s == ev[w].site IN
      /\ Locked => mutex[s] = 0
      /\ pool' = IF EarlyReturn THEN pool ELSE [pool EXCEPT ![s] = Append(@, ev[w].obj)]
-  /\ LET r == Pop(ev[w].stack) IN Set(w, [ev[w] EXCEPT !.stack = r, !.pc = IF r = <<>> THEN "idle" ELSE "run"])
+  /\ IF Clear = "after"
+     THEN Set(w, [ev[w] EXCEPT !.pc = "clr"])        \* the stack is popped when the last deferred call has run
+     ELSE LET r == Pop(ev[w].stack) IN Set(w, [ev[w] EXCEPT !.stack = r, !.pc = IF r = <<>> THEN "idle" ELSE "run"])
   /\ UNCHANGED <<created, sub, mutex, err>>
+\* Clear = "after": the write through a reference the goroutine no longer owns
+ClearLate(w) ==
+  /\ ev[w].pc = "clr"
+  /\ sub' = [sub EXCEPT ![ev[w].site][ev[w].obj] = Nil]
+  /\ LET r == Pop(ev[w].stack) IN Set(w, [ev[w] EXCEPT !.stack = r, !.pc = IF r = <<>> THEN "idle" ELSE "run"])
+  /\ UNCHANGED <<pool, created, mutex, err>>
 
-Next == \E w \in Evals : Start(w) \/ Run(w) \/ Get(w) \/ Get2(w) \/ InitCall(w) \/ Ret(w)
+Next == \E w \in Evals : Start(w) \/ Run(w) \/ Get(w) \/ Get2(w) \/ InitCall(w) \/ ClearFirst(w) \/ Ret(w) \/ ClearLate(w)
 Spec == Init /\ [][Next]_vars
 
 \* ---------------------------------------------------------------- invariants
